@@ -381,7 +381,12 @@ def do_unit(unit, ucfg, repo, wdir, tier, prop):
     R["verified_items"] = vres.get("verified", 0)
     R["error_items"] = vres.get("errors", 0)
     # obligations per function from AIR
-    air = parse_air(os.path.join(vr["logdir"], "root-final.air"), regions, src_name)
+    # one AIR file per Verus module: the root module plus the (few) nested shim / binary-level modules
+    air = {}
+    import glob as _glob
+    for af in sorted(_glob.glob(os.path.join(vr["logdir"], "*-final.air"))):
+        for k, v in parse_air(af, regions, src_name).items():
+            air[(os.path.basename(af), k) if k in air else k] = v
     # timing per function
     times = {}
     try:
